@@ -234,3 +234,9 @@ def _dispatch_order(ctx):
     import c02
     n2 = core.adopt(ctx, c02, lambda o: o["rule"] == "C02.c" and ("::replay:" in o["key"] or "replay-present" in o["key"] or "replay-between" in o["key"]), "C12.c")
     ctx.floor("C12.c", n2, 6, "shared replay obligations (C02.c): postponed deliveries are replayed in place, in queue order")
+    # 'each with its own data': a delivery claims the first pending entry of its reactor, so every entry a command prepares must
+    # be claimed by that command's own setup hook and released by its cleanup hook - an entry left behind shifts the data of
+    # every later delivery to that reactor (shared with C03.a)
+    import c03
+    n3 = core.adopt(ctx, c03, lambda o: o["rule"] == "C03.a" and ("prepare=start=end" in o["key"] or "arm-calls-the-runner" in o["key"]), "C12.f")
+    ctx.floor("C12.f", n3, 7, "shared prepare/claim/release pairing obligations (C03.a)")
